@@ -370,6 +370,7 @@ func stateLeaderValue(c *Ctx) int64 {
 func C25(c *Ctx) {
 	c.Note("scan requests sent through ProposeCommand are not trimmed (only the read path trims; the gRPC service routes scans to ReadCommand); keys reached through PrewriteRequest.PrimaryLock are deliberately not range-checked (the primary may live in another region)")
 	applyTimeAdmission(c, "K1.validation-at-apply")
+	scanConfinement(c, "K14.scan-confinement")
 	const r1 = "K1.validation-on-accept-path"
 	c.Rule(r1, "Store.validateCommand hands out a peer only after validateRegionEpoch()==nil and validateRequestKeys()==nil; validateRegionEpoch compares both ConfVer and Version for inequality; a missing epoch is rejected")
 	if fn := c.Fn("raftstore/store", "Store.validateCommand"); fn != nil {
@@ -1051,4 +1052,157 @@ func applyTimeAdmission(c *Ctx, rule string) {
 				"an admin or configuration-change entry is applied while normal entries that precede it in the log are still waiting in the batch: a command logged before a split executes after it (replicas whose Ready batches differ disagree)")
 		}
 	}
+}
+
+// scanConfinement (C25): scan results handed to a client never contain another region's keys.
+// Every region of a store shares one DB and kv.Apply's scan has no end bound, so confinement
+// rests on three structural facts: (a) both entry points that return applier output
+// (ReadCommand, ProposeCommand) pass it through trimScanResponse; (b) trimScanResponse pairs a
+// request with its response by counting the non-nil requests – kv.Apply emits no response for a
+// nil request, so the request's own index is the wrong one; (c) a scan whose empty start key
+// means `from the first key` is refused by a region that has a lower bound.
+func scanConfinement(c *Ctx, rule string) {
+	c.Rule(rule, "Store.ProposeCommand and Store.ReadCommand return applier output only after trimScanResponse; trimScanResponse does not index resp.Responses with the range index of the request loop (nil requests have no response); validateRequestKeys refuses, in its CMD_SCAN case, an empty start key when the region has a StartKey")
+	const pkg = "raftstore/store"
+	trimM := Named(pkg + ".trimScanResponse")
+	if fn := c.Fn(pkg, "Store.ProposeCommand"); fn != nil {
+		tr := Calls(fn, false, trimM)
+		n := 0
+		for i, r := range Returns(fn) {
+			v := RetVal(r, 0)
+			// the applier's output: a field of the value received from the proposal channel
+			if IsNilConst(v) || !fromProposalResult(v, 5) {
+				continue
+			}
+			n++
+			reach, m := CutReach(fn, nil, r, instrs(tr), nil)
+			c.Decide(!reach && len(tr) > 0, rule, key(fn, fmt.Sprintf("data-return[%d]<-trimScanResponse", i+1)), r.Pos(), m+1, "output of a command that went through the log is trimmed to the region", "ProposeCommand returns applier output without trimming scans to the region's range: a CMD_SCAN proposed through the log returns keys of neighbouring regions")
+		}
+		c.Decide(n >= 1, rule, key(fn, "has:data-return"), fn.Pos(), n+1, "the return of the proposal's response found", "cannot find the return that hands back the proposal's response in ProposeCommand")
+	}
+	if fn := c.Fn(pkg, "trimScanResponse"); fn != nil {
+		bad, n := false, 0
+		AllInstrs(fn, false, func(in ssa.Instruction) {
+			ia, ok := in.(*ssa.IndexAddr)
+			if !ok {
+				return
+			}
+			if _, f, ok := FieldOf(Unwrap(ia.X)); !ok || f != "Responses" {
+				return
+			}
+			n++
+			if isRangeIndex(ia.Index, 3) {
+				bad = true
+			}
+		})
+		c.Decide(n >= 1 && !bad, rule, key(fn, "response-index≠request-index"), fn.Pos(), n+1, "responses are paired with the non-nil requests", "trimScanResponse takes the response of request i from Responses[i]: kv.Apply emits no response for a nil request, so after a nil request the scan's response is not trimmed (or the wrong one is)")
+	}
+	if fn := c.Fn(pkg, "validateRequestKeys"); fn != nil {
+		scanConst := int64(-1)
+		for n, v := range enumConsts(c, "pb", "CmdType") {
+			if n == "CmdType_CMD_SCAN" {
+				scanConst = v
+			}
+		}
+		ok := false
+		for _, b := range fn.Blocks {
+			ifi := ifOf(b)
+			if ifi == nil {
+				continue
+			}
+			bo, isBo := ifi.Cond.(*ssa.BinOp)
+			if !isBo || bo.Op != token.EQL {
+				continue
+			}
+			if k, isK := ConstInt(bo.Y); !isK || k != scanConst || TypeName(bo.X.Type()) != "pb.CmdType" {
+				continue
+			}
+			// inside the scan case: a test that reads len(meta.StartKey) with a rejecting edge
+			for _, d := range fn.Blocks {
+				if !EdgeDominates(b, b.Succs[0], d) && d != b.Succs[0] {
+					continue
+				}
+				di := ifOf(d)
+				if di == nil || !mentionsLenOfField(di.Cond, "manifest.RegionMeta", "StartKey", 4) {
+					continue
+				}
+				if returnsNonNilPtr(d.Succs[0]) || returnsNonNilPtr(d.Succs[1]) {
+					ok = true
+				}
+			}
+		}
+		c.Decide(ok, rule, key(fn, "scan:empty-start-on-bounded-region→reject"), fn.Pos(), 2, "an unbounded scan start is accepted only by the region without a lower bound", "validateRequestKeys accepts a scan with an empty start key on a region that has a StartKey: the scan starts in another region's keys, spends its limit there, and the region answers with nothing although it owns matching keys")
+	}
+}
+
+// fromProposalResult: v is (a field of) the value received from a proposal's result channel.
+func fromProposalResult(v ssa.Value, depth int) bool {
+	if depth <= 0 || v == nil {
+		return false
+	}
+	switch x := v.(type) {
+	case *ssa.Field:
+		return fromProposalResult(x.X, depth-1)
+	case *ssa.UnOp:
+		if x.Op == token.ARROW {
+			return true
+		}
+		return fromProposalResult(x.X, depth-1)
+	case *ssa.FieldAddr:
+		return fromProposalResult(x.X, depth-1)
+	case *ssa.Extract:
+		if _, ok := x.Tuple.(*ssa.Select); ok {
+			return true
+		}
+		return fromProposalResult(x.Tuple, depth-1)
+	case *ssa.Alloc:
+		if x.Referrers() != nil {
+			for _, r := range *x.Referrers() {
+				if st, ok := r.(*ssa.Store); ok && st.Addr == x && fromProposalResult(st.Val, depth-1) {
+					return true
+				}
+			}
+		}
+	case *ssa.Phi:
+		for _, e := range x.Edges {
+			if fromProposalResult(e, depth-1) {
+				return true
+			}
+		}
+	}
+	return false
+}
+
+// isRangeIndex: v is the index variable of a range loop (phi commented rangeindex, or its +1).
+func isRangeIndex(v ssa.Value, depth int) bool {
+	if depth <= 0 {
+		return false
+	}
+	switch x := v.(type) {
+	case *ssa.Phi:
+		return x.Comment == "rangeindex"
+	case *ssa.BinOp:
+		return isRangeIndex(x.X, depth-1)
+	case *ssa.Convert:
+		return isRangeIndex(x.X, depth-1)
+	}
+	return false
+}
+
+// mentionsLenOfField: cond is computed from len(owner.field).
+func mentionsLenOfField(v ssa.Value, owner, field string, depth int) bool {
+	if depth <= 0 || v == nil {
+		return false
+	}
+	switch x := v.(type) {
+	case *ssa.BinOp:
+		return mentionsLenOfField(x.X, owner, field, depth-1) || mentionsLenOfField(x.Y, owner, field, depth-1)
+	case *ssa.UnOp:
+		return mentionsLenOfField(x.X, owner, field, depth-1)
+	case *ssa.Call:
+		if bi, ok := x.Call.Value.(*ssa.Builtin); ok && bi.Name() == "len" && len(x.Call.Args) == 1 {
+			return isFieldLoad(x.Call.Args[0], owner, field)
+		}
+	}
+	return false
 }
